@@ -12,6 +12,8 @@ mod apis2;
 mod apis3;
 mod apis4;
 mod apis5;
+mod apis6;
+mod apis7;
 
 fn main() {
     std::panic::set_hook(Box::new(|_| {}));
